@@ -123,6 +123,13 @@ pub fn opaque_string() -> String
 pub fn string_push_str(s: &mut String, t: &str)
 { s.push_str(t) }
 
+// `vec![x]` (one element)
+pub fn vec_one<T>(x: T) -> (r: Vec<T>) ensures r@ == seq![x] { let mut v = Vec::new(); v.push(x); v }
+// `Option<Option<T>>::flatten` (std)
+pub fn opt_flatten<T>(x: Option<Option<T>>) -> (r: Option<T>)
+    ensures r == (match x { Some(Some(v)) => Some(v), _ => None })
+{ match x { Some(Some(v)) => Some(v), _ => None } }
+
 // ------------------------------------------------------------------ UTF-8 (R3 for from_utf8_unchecked)
 pub uninterp spec fn is_utf8(b: Seq<u8>) -> bool;
 pub uninterp spec fn str_bytes(s: &str) -> Seq<u8>;
